@@ -576,26 +576,25 @@ func c19Gen(g *core.Gen) {
 				}
 			}
 		}
-		// pairs of mutations
-		stride := 1
-		if !g.Thorough() {
-			stride = 7 // quick: every 7th pair (deterministic), thorough: all pairs
-		}
-		k := 0
+		// pairs of mutations: ALL pairs; quick places each pair in {index+volumes, volumes only} with the data state
+		// rotating, thorough in all four placements x all three data states
 		for i := 0; i < n; i++ {
 			if g.Stopped() {
 				return
 			}
 			for j := i + 1; j < n; j++ {
-				k++
-				if k%stride != 0 {
-					continue
+				if g.Thorough() {
+					for where := 0; where < 4; where++ {
+						for data := 0; data < 3; data++ {
+							g.Emit(&c19Case{Fmt: f, Muts: []int{i, j}, Names: []string{name(i), name(j)}, Where: where, Data: data})
+						}
+					}
+				} else {
+					for _, where := range []int{0, 2} {
+						g.Emit(&c19Case{Fmt: f, Muts: []int{i, j}, Names: []string{name(i), name(j)}, Where: where, Data: (i + 2*j + where) % 3})
+					}
 				}
-				g.Emit(&c19Case{Fmt: f, Muts: []int{i, j}, Names: []string{name(i), name(j)}, Where: (i + j) % 4, Data: (i + 2*j) % 3})
 			}
-		}
-		if !g.Thorough() {
-			g.Note(fmt.Sprintf("%s: pairs of mutations: every 7th of the %d pairs in quick tier; all pairs in thorough", f, n*(n-1)/2))
 		}
 	}
 }
@@ -970,7 +969,7 @@ func init() {
 		ID:    "C19",
 		Level: "model_checking",
 		Rule: "bounded-exhaustive semantic mutations through the reference writers (every mutated packet / volume is re-checksummed): PAR2: main packet slice size and count at boundary values (with re-sealed and with stale set id), duplicate / unsorted / missing / unknown ids, removal and duplication of each packet type, every file description length at boundary values (id recomputed), wrong hashes and ids, checksum lists longer / shorter / empty / huge, recovery exponents {1,4,5,100,65534,65535,65536,2^31,2^32-1}, recovery payloads of size {0,4,8,12,64}, duplicate exponent with different data, and every packet type's length field at {0,4,60,63,64,65,68,real-4,real+4,2^31,2^63-4,2^63,2^64-4}; PAR1: every header field and every entry field at boundary values, missing / duplicated entries, truncated data, odd name bytes. " +
-			"Each mutation applied to index+volumes / index only / volumes only / the second volume file only x data {intact, first file missing, a slice overwritten}; all single mutations and pairs (quick: every 7th pair; thorough: all pairs); real Verify and Repair. " +
+			"Each mutation applied to index+volumes / index only / volumes only / the second volume file only x data {intact, first file missing, a slice overwritten}; all single mutations in every placement and data state, and ALL pairs (quick: 2 placements, rotating data state; thorough: 4 placements x 3 data states); real Verify and Repair. " +
 			"Oracle: no panic / crash / hang; TotalAlloc delta <= 64 x (bytes present + declared slice size x 6) + 256 MiB; usable recovery blocks <= recovery packets whose payload has the declared slice size; usable data <= declared checksum entries matching bytes actually present; every write matches the archive's own MD5 and length for that path. non-trivial = every case",
 		Assumptions: []string{"slice sizes >= 2^26 are capped in the allocation bound; 2^31-class slice sizes (seconds of legitimate proportional allocation) are not executed", "TotalAlloc is attributed per execution because workers are single-threaded"},
 		NewCase:     func() interface{} { return &c19Case{} },
